@@ -266,6 +266,8 @@ def wholefile_gate(repo: Repo, rep):
         # is this call part of a gate definition `g = enforce_formatting() or x == format_code(x)` ?
         if n.kind == "stmt" and isinstance(n.ast, ast.Assign) and isinstance(n.ast.value, ast.BoolOp) and isinstance(n.ast.value.op, ast.Or):
             continue
+        if n.kind == "stmt" and isinstance(n.ast, ast.Assign) and isinstance(n.ast.value, ast.Compare) and len(n.ast.value.ops) == 1 and isinstance(n.ast.value.ops[0], ast.Eq) and c in (n.ast.value.left, n.ast.value.comparators[0]):
+            continue  # the second stage of a gate written in two steps: `g = enforce_formatting()`, `if not g: g = code == format_code(code)`
         if n.kind == "cond" and any(isinstance(x, ast.Compare) for x in ast.walk(n.ast)):
             continue  # part of a decomposed gate definition
         # a formatting application: must be under a gate variable
@@ -276,20 +278,27 @@ def wholefile_gate(repo: Repo, rep):
         good = False
         for g in gates:
             ds = reaching_defs(cfg, g, g.ast.id)
-            if len(ds) != 1:
+            if not ds:
                 continue
-            v = def_value(ds[0], g.ast.id)
-            if isinstance(v, ast.Name):
-                v = resolve_alias(cfg, ds[0], v)
-            if isinstance(v, ast.BoolOp) and isinstance(v.op, ast.Or):
-                has_enf = any(isinstance(x, ast.Call) and norm(x.func).endswith("enforce_formatting") for x in v.values)
+            # the disjuncts of the gate: one `a or b` definition, or the same written in steps (`g = a`, `if not g: g = b`)
+            disj = []
+            for d_ in ds:
+                v = def_value(d_, g.ast.id)
+                if isinstance(v, ast.Name):
+                    v = resolve_alias(cfg, d_, v)
+                if isinstance(v, ast.BoolOp) and isinstance(v.op, ast.Or):
+                    disj += [(d_, x) for x in v.values]
+                elif len(ds) > 1 and v is not None:
+                    disj.append((d_, v))
+            if disj:
+                has_enf = any(isinstance(x, ast.Call) and norm(x.func).endswith("enforce_formatting") for _, x in disj)
                 fix = False
-                for x in v.values:
+                for d0, x in disj:
                     if isinstance(x, ast.Compare) and len(x.ops) == 1 and isinstance(x.ops[0], ast.Eq):
                         a, b = x.left, x.comparators[0]
                         for p, q in ((a, b), (b, a)):
                             if isinstance(q, ast.Call) and norm(q.func).endswith("format_code") and q.args and norm(q.args[0]) == norm(p) and isinstance(p, ast.Name):
-                                src = resolve_alias(cfg, ds[0], p)
+                                src = resolve_alias(cfg, d0, p)
                                 if "read_text" in norm(src) or "read_bytes" in norm(src) or "read(" in norm(src):
                                     fix = True
                 if has_enf and fix:
@@ -311,25 +320,51 @@ def wholefile_gate(repo: Repo, rep):
         rep.undecided("R-WHOLEFILE-GATE", "no gated whole-file formatting found")
 
 
-def import_table(dv):
-    """`[name for name, needed in (("external", <cond>), ("HasRepr", <cond>)) if needed]` -> [(name, cond expression)]; None if dv is not
-    such a table comprehension"""
+def import_table(dv, resolve=None):
+    """the import requests written as a table comprehension -> [(name, cond expression)], None if dv is no such comprehension:
+         [name for name, needed in (("external", <cond>), ("HasRepr", <cond>)) if needed]
+         [name for check, name in [(used_externals, "external"), (used_hasrepr, "HasRepr")] if check(tree)]
+       the table may be held in a local (`resolve(name_node)` gives its definition)"""
     if not isinstance(dv, (ast.ListComp, ast.GeneratorExp)) or len(dv.generators) != 1:
         return None
     g = dv.generators[0]
     if not (isinstance(g.target, ast.Tuple) and len(g.target.elts) == 2 and all(isinstance(x, ast.Name) for x in g.target.elts)):
         return None
-    nm, flag = g.target.elts[0].id, g.target.elts[1].id
-    if not (isinstance(dv.elt, ast.Name) and dv.elt.id == nm and len(g.ifs) == 1 and isinstance(g.ifs[0], ast.Name) and g.ifs[0].id == flag):
+    if not (isinstance(dv.elt, ast.Name) and len(g.ifs) == 1):
         return None
-    if not isinstance(g.iter, (ast.Tuple, ast.List)):
+    names = [x.id for x in g.target.elts]
+    if dv.elt.id not in names:
+        return None
+    ni = names.index(dv.elt.id)
+    other = names[1 - ni]
+    test = g.ifs[0]
+    if isinstance(test, ast.Name) and test.id == other:
+        mode = "value"
+    elif isinstance(test, ast.Call) and isinstance(test.func, ast.Name) and test.func.id == other:
+        mode = "call"
+    else:
+        return None
+    it = g.iter
+    if isinstance(it, ast.Name) and resolve is not None:
+        it = resolve(it)
+    if not isinstance(it, (ast.Tuple, ast.List)):
         return None
     out = []
-    for row in g.iter.elts:
-        if not (isinstance(row, (ast.Tuple, ast.List)) and len(row.elts) == 2 and isinstance(row.elts[0], ast.Constant)):
+    for row in it.elts:
+        if not (isinstance(row, (ast.Tuple, ast.List)) and len(row.elts) == 2 and isinstance(row.elts[ni], ast.Constant)):
             return None
-        out.append((row.elts[0].value, row.elts[1]))
+        cond = row.elts[1 - ni]
+        if mode == "call":
+            cond = ast.copy_location(ast.Call(func=cond, args=list(test.args), keywords=[]), cond)
+        out.append((row.elts[ni].value, cond))
     return out
+
+
+def _joined_pieces(v):
+    """`"".join(<piece> for ... in <queue>)`: the comprehension, or None"""
+    if isinstance(v, ast.Call) and isinstance(v.func, ast.Attribute) and v.func.attr == "join" and isinstance(v.func.value, ast.Constant) and v.func.value.value == "" and len(v.args) == 1 and isinstance(v.args[0], (ast.GeneratorExp, ast.ListComp)):
+        return v.args[0]
+    return None
 
 
 def import_only(repo: Repo, rep):
@@ -358,8 +393,8 @@ def import_only(repo: Repo, rep):
                     dv = def_value(d, v.id)
                     if isinstance(dv, (ast.List, ast.Tuple)):
                         names |= {e.value if isinstance(e, ast.Constant) else "?" for e in dv.elts}
-                    elif import_table(dv) is not None:
-                        names |= {nm_ for nm_, _ in import_table(dv)}
+                    elif import_table(dv, lambda nm__: resolve_alias(cfg, nn[0], nm__)) is not None:
+                        names |= {nm_ for nm_, _ in import_table(dv, lambda nm__: resolve_alias(cfg, nn[0], nm__))}
                 for n2 in cfg.live:
                     for cc in node_calls(n2):
                         if isinstance(cc.func, ast.Attribute) and cc.func.attr in ("append", "extend", "add") and isinstance(cc.func.value, ast.Name) and cc.func.value.id == v.id:
@@ -404,7 +439,8 @@ def import_only(repo: Repo, rep):
                 if d.kind == "stmt" and isinstance(d.ast, ast.AugAssign):
                     parts.append(d.ast.value)
                 elif d.kind == "stmt" and isinstance(d.ast, ast.Assign):
-                    parts.append(d.ast.value)
+                    j = _joined_pieces(d.ast.value)
+                    parts.append(j.elt if j is not None else d.ast.value)
             ok = bool(parts)
             for p in parts:
                 if isinstance(p, ast.Constant) and p.value == "":
@@ -430,6 +466,10 @@ def import_only(repo: Repo, rep):
                     for a_ in ancestors(d.ast):
                         if isinstance(a_, ast.For) and isinstance(a_.iter, ast.Name):
                             queues.add(a_.iter.id)
+                elif d.kind == "stmt" and isinstance(d.ast, ast.Assign) and _joined_pieces(d.ast.value) is not None:
+                    for g_ in _joined_pieces(d.ast.value).generators:
+                        if isinstance(g_.iter, ast.Name) and not g_.ifs:
+                            queues.add(g_.iter.id)
         elif txt is not None:
             for g_ in [x for x in ast.walk(txt) if isinstance(x, ast.comprehension) and isinstance(x.iter, ast.Name)]:
                 queues.add(g_.iter.id)
@@ -761,10 +801,25 @@ def source_bom(repo: Repo, rep):
                 )
     rep.floor("R-SOURCE-BOM", "text reads of test files", n, 3)
     w = repo.func("_rewrite_code.py::SourceFile.rewrite")
-    marks = [x for x in body_nodes(w.node) if (isinstance(x, ast.Attribute) and x.attr == "BOM_UTF8") or (isinstance(x, ast.Constant) and x.value in (b"\xef\xbb\xbf", "\ufeff"))]
-    writes = [x for x in body_nodes(w.node) if isinstance(x, ast.Call) and isinstance(x.func, ast.Attribute) and x.func.attr in ("write", "write_bytes")]
-    if writes and any(any(m is y for y in ast.walk(wr)) for wr in writes for m in marks) or (writes and len(writes) > 1 and marks):
-        rep.ok("R-SOURCE-BOM", w, writes[0], "the writer restores the byte order mark of a file that had one")
+    # the writer: rewrite() and the methods of its class it hands the writing to (`self._write_code(new_code, has_bom)`)
+    writers, todo = [w], [w]
+    while todo:
+        g = todo.pop()
+        for c in [x for x in body_nodes(g.node) if isinstance(x, ast.Call) and isinstance(x.func, ast.Attribute) and isinstance(x.func.value, ast.Name) and g.params and x.func.value.id == g.params[0]]:
+            m_ = repo.lookup_method(w.cls, c.func.attr) if w.cls is not None else None
+            if m_ is not None and m_ not in writers and m_.module is w.module:
+                writers.append(m_)
+                todo.append(m_)
+    restored = None
+    for g in writers:
+        marks = [x for x in body_nodes(g.node) if (isinstance(x, ast.Attribute) and x.attr == "BOM_UTF8") or (isinstance(x, ast.Constant) and x.value in (b"\xef\xbb\xbf", "\ufeff"))]
+        writes = [x for x in body_nodes(g.node) if isinstance(x, ast.Call) and isinstance(x.func, ast.Attribute) and x.func.attr in ("write", "write_bytes")]
+        # a local that holds the mark (`prefix = codecs.BOM_UTF8` / `prefix = BOM if has_bom else b""`)
+        carriers = {t.id for st in body_nodes(g.node) if isinstance(st, ast.Assign) and any(m is y for m in marks for y in ast.walk(st.value)) for t in st.targets if isinstance(t, ast.Name)}
+        if writes and (any(any(m is y for y in ast.walk(wr)) for wr in writes for m in marks) or any(isinstance(y, ast.Name) and y.id in carriers for wr in writes for y in ast.walk(wr)) or (len(writes) > 1 and marks)):
+            restored = (g, writes[0])
+    if restored:
+        rep.ok("R-SOURCE-BOM", restored[0], restored[1], "the writer restores the byte order mark of a file that had one")
     else:
         rep.violation("R-SOURCE-BOM", w, w.node, "SourceFile.rewrite never writes a byte order mark: a file saved as 'UTF-8 with BOM' silently loses it when a snapshot in it is rewritten", construct="rewrite:no-bom")
 
